@@ -662,4 +662,90 @@ theorem C19_bounds_rule_joins_container_step (t : Ty) (k : Kind) (b : Ty) :
     simp [boundsFit_canon_self]
 
 
+/-! ## what was accepted is a member -/
+
+theorem member_after_add_bag (d : Decl) (b : List Val) (x : Val) : member d (.bag (insertSorted x b)) x = true := by
+  simp only [member]
+  exact decide_eq_true (((insertSorted_perm x b).map Val.key).mem_iff.mpr (by simp))
+
+theorem member_after_add_set (d : Decl) (s : List Val) (x : Val) : member d (.set (setAdd s x)) x = true := by
+  unfold setAdd
+  split
+  · rename_i h; simp only [member]; exact decide_eq_true h
+  · simp only [member]
+    exact decide_eq_true (((insertSorted_perm x s).map Val.key).mem_iff.mpr (by simp))
+
+theorem member_after_set_list (d : Decl) (l : List Val) (i : Int) (x : Val) (h1 : 1 ≤ i) (h2 : i ≤ (l.length : Int) + 1) :
+    member d (.list (listSet l i x)) x = true := by
+  unfold listSet
+  split
+  · simp only [member]; exact decide_eq_true (by simp)
+  · rename_i hne
+    have hlt : (i - 1).toNat < l.length := by omega
+    simp only [member]
+    refine decide_eq_true (List.mem_map.mpr ⟨x, ?_, rfl⟩)
+    exact List.mem_iff_getElem.mpr ⟨(i - 1).toNat, by rw [List.length_set]; exact hlt, List.getElem_set_self _⟩
+
+theorem member_after_set_array (d : Decl) (hi : Int) (hd : d.hi = some hi) (a : Int → Option Val) (i : Int) (x : Val)
+    (h1 : d.lo ≤ i) (h2 : i ≤ hi) : member d (.array (arraySet a i x)) x = true := by
+  simp only [member, hd, Option.getD_some, List.map_map]
+  exact decide_eq_true (List.mem_map.mpr ⟨i, mem_indices.mpr ⟨h1, h2⟩, by simp [arraySet]⟩)
+
+/-- **What was accepted is a member**: after an accepted `a[i] := x` or `add(x)` the value `x` is IN the aggregate value
+(12.2.3) — for every declaration and every value of the aggregate, on the specification … -/
+theorem spec_accepted_is_member (d : Decl) (v : Value) (op : Op) (x : Val)
+    (hop : op = .add x ∨ ∃ i, op = .set i x) (hok : (step d v op).2 = .ok) : member d (step d v op).1 x = true := by
+  cases v with
+  | array a =>
+    cases hd : d.hi with
+    | none => simp [step, hd] at hok
+    | some hi =>
+      rcases hop with rfl | ⟨i, rfl⟩
+      · simp [step, hd] at hok
+      · simp only [step, hd] at hok ⊢
+        by_cases hall : arraySetAllowed d hi a i x
+        · simp only [hall, if_true]; exact member_after_set_array d hi hd a i x hall.1 hall.2.1
+        · simp [hall] at hok
+  | list l =>
+    rcases hop with rfl | ⟨i, rfl⟩
+    · simp [step] at hok
+    · simp only [step] at hok ⊢
+      by_cases hall : listSetAllowed d l i x
+      · simp only [hall, if_true]; exact member_after_set_list d l i x hall.1 hall.2.1
+      · simp [hall] at hok
+  | bag b =>
+    rcases hop with rfl | ⟨i, rfl⟩
+    · simp only [step] at hok ⊢
+      by_cases hall : bagAddAllowed d b x
+      · simp only [hall, if_true]; exact member_after_add_bag d b x
+      · simp [hall] at hok
+    · simp [step] at hok
+  | set s =>
+    rcases hop with rfl | ⟨i, rfl⟩
+    · simp only [step] at hok ⊢
+      by_cases hall : setAddAllowed d s x
+      · simp only [hall, if_true]; exact member_after_add_set d s x
+      · simp [hall] at hok
+    · simp [step] at hok
+
+theorem after_snoc (s : Agg) (ops : List Op) (op : Op) : s.after (ops ++ [op]) = ((s.after ops).step op).1 := by
+  induction ops generalizing s with
+  | nil => rfl
+  | cons o os ih => simp only [List.cons_append, Agg.after]; exact ih _
+
+/-- … and on the code: in every reachable state, after an accepted `container[i] = x` or `container.add(x)`,
+`x in container` is True (once `__contains__` is defined, `C19_tie_membership_defined`). -/
+theorem C19_accepted_value_is_a_member (d : Decl) (s : Agg) (h : Reachable d s) (op : Op) (x : Val)
+    (hop : op = .add x ∨ ∃ i, op = .set i x) (hok : (s.step op).2.obs = .ok) : (s.step op).1.contains x = true := by
+  have hsim := C19_step_refines d s h op
+  have hreach : Reachable d (s.step op).1 := by
+    obtain ⟨s0, ops, hnew, rfl⟩ := h
+    exact ⟨s0, ops ++ [op], hnew, (after_snoc s0 ops op).symm⟩
+  rw [C19_membership_refines d _ hreach x]
+  have h1 : (step d (abs s) op).1 = abs (s.step op).1 := by rw [hsim]
+  have h2 : (step d (abs s) op).2 = .ok := by rw [hsim]; exact hok
+  rw [← h1]
+  exact spec_accepted_is_member d (abs s) op x hop h2
+
+
 end StepModel.PyAgg
